@@ -114,6 +114,24 @@ def build(case):
     return ddl, exp
 
 
+OPTION_KEYS = {"increment", "increment_by", "start", "start_with", "minvalue", "maxvalue", "cache", "order", "noorder"}
+
+
+def same_seq(got, want):
+    """sequence entries equal on schema / name / every written option, with no option key that was not written
+    (keys outside the option vocabulary are not judged)"""
+    if not isinstance(got, list) or len(got) != len(want):
+        return False
+    for g, w in zip(got, want):
+        if not isinstance(g, dict) or "sequence_name" not in g:
+            return False
+        if any(g.get(k, "<absent>") != v or (isinstance(v, bool) != isinstance(g.get(k), bool)) for k, v in w.items()):
+            return False
+        if any(k in OPTION_KEYS and k not in w for k in g):
+            return False
+    return True
+
+
 def evaluate(case):
     ddl, exp = build(case)
     r = run_ddl(ddl, {"normalize_names": True} if case.get("nn") else None, {"output_mode": case["mode"]} if case.get("mode") else None)
@@ -125,24 +143,24 @@ def evaluate(case):
     else:
         res = r[1]
         if case["ctx"] in ("alone", "noschema"):
-            if res != [exp] and not (case.get("mode") and len(res) == 1 and isinstance(res[0], dict) and dict(res[0]) == exp):
+            if not same_seq(res, [exp]):
                 diffs.append(diff("sequence entity", "sequence-differs", exp, short(res)))
         elif case["ctx"] == "then-alter":
             ref = run_ddl(TAB_BEFORE + "\n" + ALTER_AFTER)[1]
-            if len(res) != 2 or res[1] != exp:
+            if len(res) != 2 or not same_seq([res[1]], [exp]):
                 diffs.append(diff("sequence entity (before ALTER statements)", "sequence-differs", exp, short(res[1:2])))
             if len(res) == 2 and res[0] != ref[0]:
                 diffs.append(diff("table altered right after the sequence", "neighbour-changed", short(ref[0]), short(res[0])))
         elif case["ctx"] == "between":
             ref_b, ref_a = run_ddl(TAB_BEFORE)[1], run_ddl(TAB_AFTER)[1]
-            if len(res) != 3 or res[1] != exp:
+            if len(res) != 3 or not same_seq([res[1]], [exp]):
                 diffs.append(diff("sequence entity (between tables)", "sequence-differs", exp, short(res[1:2])))
             if len(res) == 3 and (res[0] != ref_b[0] or res[2] != ref_a[0]):
                 diffs.append(diff("neighbouring tables", "neighbour-changed", short([ref_b[0], ref_a[0]]), short([res[0], res[2]])))
         else:
             e2 = {"schema": "s", "sequence_name": "q2", "start": 7}
             e3 = dict(e2, sequence_name="q3")
-            if res != [e2, exp, e3]:
+            if not same_seq(res, [e2, exp, e3]):
                 diffs.append(diff("three sequences", "sequence-differs", [e2, exp, e3], short(res)))
     return {"diffs": diffs, "nontrivial": len(case["sel"]) >= 1, "outcome": str(sorted(exp))}
 
